@@ -217,7 +217,7 @@ def _string_bounds(ctx, prog):
     seen = 0
     for name in ("CONNECT", "PUBLISH", "SUBSCRIBE", "UNSUBSCRIBE"):
         c = mod.classes.get(name)
-        if c is None or "encode" not in c.methods:
+        if c is None or prog.lookup_method(c, "encode") is None:
             raise AnalysisError("anchor vanished: mqtt.pdu.%s.encode" % name)
         problems, stats, encm, decm = compare_class(prog, c)
         bad = [q for q in problems if q.rule == "L5"]
